@@ -184,9 +184,20 @@ func handleExceptionSignal(vm *r.VM, blockModule *r.Module, blockFrameDepth int,
 	// try to find if the blockErr is an exception signal
 	exception, realErr := extractSignalValue(blockErr, zerr.SigTypeException)
 
-	// so, if the blockErr is not an exception signal, return it directly
+	// a runtime fault (division by zero, undefined name, wrong operand type...)
+	// is an exception of the default class 异常 - as the manual's own example
+	// (chapter 4: 令单价 = 总价 / 数量 ... 拦截异常) expects
 	if realErr != nil {
-		return nil, realErr
+		switch e := realErr.(type) {
+		case *zerr.RuntimeError:
+			exception = value.NewException(e.Error())
+		case *value.Exception:
+			// a runtime fault that crossed a call boundary (see Function.Exec)
+			exception = e
+		default:
+			// other errors (loop signals, ...) are passed on untouched
+			return nil, realErr
+		}
 	}
 
 	// by default, we use "异常" to match *value.Exception type exceptions
